@@ -16,6 +16,7 @@
 -/
 import JV.Proofs.ReadLedger
 import JV.Proofs.JsonDepth
+import JV.Proofs.JsonParserDepth
 namespace JV.Props.C10
 open JV Model.ReadLedger Spec.Rfc8259
 
@@ -42,5 +43,20 @@ theorem json_depth_limit_inner (fl : Flags) (k depth fuel : Nat) (rest : Bytes) 
 example : (read 16384 (2 ^ 62) 5).ledger = [16384, 5] := by decide
 example : (read 4 10 100).ledger = [4, 8, 10] := by decide
 example : nested 2 [] = [91, 91, 91, 93, 93, 93] := by decide
+
+
+/-- the parser MODEL (JV.Model.JsonParser, tied to json_parser.hpp state by state): whatever the input, a parser that has not
+    reported an error is never nested deeper than `max_nesting_depth` -/
+theorem json_parser_level_bounded (cfg : Model.JsonParser.Cfg) (text : Bytes)
+    (h : (Model.JsonParser.feed cfg Model.JsonParser.init text).err = none) :
+    (Model.JsonParser.feed cfg Model.JsonParser.init text).level ≤ cfg.maxDepth :=
+  Model.JsonParser.levelOK_feed cfg _ text (Model.JsonParser.levelOK_init cfg) h
+
+/-- … and the test is exact on both container-opening paths: refused at the limit, admitted below it -/
+theorem json_parser_limit_exact (cfg : Model.JsonParser.Cfg) (s : Model.JsonParser.St) :
+    (s.level = cfg.maxDepth → (Model.JsonParser.beginArray cfg s).err = some 5 ∧ (Model.JsonParser.beginObject cfg s).err = some 5) ∧
+    (s.level < cfg.maxDepth → (Model.JsonParser.beginArray cfg s).level = s.level + 1 ∧ (Model.JsonParser.beginObject cfg s).level = s.level + 1) :=
+  ⟨fun h => ⟨Model.JsonParser.beginArray_at_limit cfg s h, Model.JsonParser.beginObject_at_limit cfg s h⟩,
+   fun h => ⟨(Model.JsonParser.beginArray_below_limit cfg s h).2, (Model.JsonParser.beginObject_below_limit cfg s h).2⟩⟩
 
 end JV.Props.C10
